@@ -494,6 +494,9 @@ def run(ctx, res):
         res.count("shear:velocity_probe_failed")
 
     flush()
+    # representation- and history-robustness of the public functions (harness/apirobust.py)
+    from .. import apirobust_cases as _AC
+    _AC.c13(res, np.random.default_rng(ctx["seed"] + 4242), ctx)
 
 
 def compare(res, kernel, inp, want, line):
